@@ -420,7 +420,9 @@ impl Store {
 
             // Handle heartbeat if requested
             if let FollowOption::WithHeartbeat(duration) = options.follow {
-                let heartbeat_tx = tx;
+                // Only a weak sender: the heartbeat must not keep the stream open once the history
+                // thread and the live task are done (limit reached, subscriber lagged).
+                let heartbeat_tx = tx.downgrade();
                 #[cfg(feature = "verif")]
                 let heartbeat_tx = heartbeat_tx.role(vr.beat(), "beat.send");
                 #[cfg(feature = "verif")]
@@ -434,6 +436,9 @@ impl Store {
                     let heartbeat_tx = heartbeat_tx;
                     loop {
                         tokio::time::sleep(duration).await;
+                        let Some(heartbeat_tx) = heartbeat_tx.upgrade() else {
+                            break;
+                        };
                         let frame =
                             Frame::builder("xs.pulse", options.context_id.unwrap_or(ZERO_CONTEXT))
                                 .id(scru128::new())
